@@ -1,5 +1,7 @@
 mod c05;
+mod c06;
 mod c08;
+mod c12;
 mod child;
 mod doc;
 mod exec;
@@ -135,7 +137,7 @@ fn main() {
         child::child_main(&args[2]);
     }
     let noaslr = ensure_no_aslr();
-    let checks: Vec<&dyn framework::Check> = vec![&c05::C05, &c08::C08];
+    let checks: Vec<&dyn framework::Check> = vec![&c05::C05, &c06::C06, &c08::C08, &c12::C12];
     let flag = |name: &str| -> Option<String> { args.iter().position(|a| a == name).and_then(|i| args.get(i + 1).cloned()) };
     let verif = std::path::PathBuf::from(flag("--verif").unwrap_or_else(|| "/verif".into()));
     match args.get(1).map(|s| s.as_str()) {
